@@ -54,6 +54,14 @@ def audit_keys(slice_, timeout):
         if missing or missing_d:
             return {'state': 'counterexample', 'cex': {'lang': LANG, 'missing_month_keys': missing[:5], 'missing_day_keys': missing_d[:5]},
                     'detail': 'numeric keys missing from the wired maps: months %r, days %r' % (missing[:5], missing_d[:5]), 'queries': 0}
+        # wiring completeness: every spelling the culture's resource tables list (ordinal days such as '1er', month abbreviations ...) is wired
+        _res = importlib.import_module('recognizers_date_time.resources.%s_date_time' % LANG)
+        _R = getattr(_res, LANG.capitalize() + 'DateTime')
+        unwired_d = [k for k in getattr(_R, 'DayOfMonth', {}) if k not in dm]
+        unwired_m = [k for k in getattr(_R, 'MonthOfYear', {}) if k not in mo]
+        if unwired_d or unwired_m:
+            return {'state': 'counterexample', 'cex': {'lang': LANG, 'unwired_day_keys': unwired_d[:5], 'unwired_month_keys': unwired_m[:5]},
+                    'detail': 'spellings of the culture\'s resource tables missing from the wired parser maps: days %r, months %r' % (unwired_d[:6], unwired_m[:6]), 'queries': 0}
         ref = datetime(2019, 7, 15)
         fr.target = LDP.config.date_regex[0]
         day_keys = sorted(dm, key=lambda k: (dm[k], k))
